@@ -92,11 +92,18 @@ def spec_labels(yt, yp, pos):
 @register
 class CHECK(Check):
     pid = "C14"
-    technique = "Lean 4 theorems over the BaseMetrics model + compiled-driver correspondence with the 7 public functions"
+    technique = ("Lean 4 theorems over the BaseMetrics model and over the statement-by-statement TRANSLATION of _base_metrics.py "
+                 "(lifter base_metrics.py -> Generated/BaseMetricsSrc.lean, proved equal to the model) + compiled-driver "
+                 "correspondence with the 7 public functions")
     level_text = ("Theorems (all inputs, no size bound): rates in [0,1], TPR+FNR / TNR+FPR = 1 or both 0, pos_label swap, "
                   "rejection rules of _get_labels_for_confusion_matrix, selection_rate/mean_prediction/count definitions. "
                   "Tie: the 7 public functions vs the compiled Lean model on generated + exhaustive small inputs, value "
-                  "within 1e-12 and scalar-ness of the returned object; independent Fraction oracle decides violations.")
+                  "within 1e-12 and scalar-ness of the returned object; independent Fraction oracle decides violations. "
+                  "Translator tie: the bodies of _get_labels_for_confusion_matrix, the four rates, count, mean_prediction and "
+                  "selection_rate are translated on every run into Lean do-notation over numpy/sklearn primitives "
+                  "(Model/NumpySk.lean); src_*_eq_model prove the translation equal to the hand-written model, the property "
+                  "clauses are restated for the translated functions, and the driver evaluates the TRANSLATED functions "
+                  "(ops bms.*) against fairlearn and the oracle on every case.")
     design_ref = "DESIGN.md section 4, C14"
     quick_cases = 1500
     thorough_cases = 40000
@@ -109,6 +116,10 @@ class CHECK(Check):
     explanation = ("theorems over the Lean model BaseMetrics (all inputs); correspondence: 7 public functions vs compiled "
                    "driver, value within 1e-12 and scalar-ness of the return value; oracle: first-principles Fractions")
     trusted = ("sklearn.metrics.confusion_matrix(normalize='true') incl. nan_to_num of empty rows (modelled by `ratio`)",
+               "the numpy/sklearn primitives of Model/NumpySk.lean (np.dot, .sum(), np.ones, ==, np.unique, np.vstack, "
+               "frozenset.issuperset, confusion_matrix(labels=, sample_weight=, normalize=).ravel()) are specifications; sklearn's "
+               "'At least one label specified must be in y_true' error is not modelled (unreachable from the unchanged code)",
+               "harness/lifters/base_metrics.py: the Python-ast -> Lean do-notation translation of the eight function bodies",
                "string labels are mapped order-preservingly to integers 100.. before entering the model")
     assumptions = ("weights are positive", "labels of one call share a type")
 
